@@ -315,7 +315,45 @@ def terminator_in_value(prog: Program, run: Run, R: str = "C04.R3") -> None:
                 names = {n.id for n in ast.walk(t) if isinstance(n, ast.Name)}
                 if names & hit_names or any(z is c for c in in_tests for z in ast.walk(t)):
                     ok = True
-    if ok:
+    # the decoder looks for the terminator in EVERY value (it cannot know whether the encoder
+    # appended one): the encoder's search may depend on nothing but there being a terminator
+    cond_bad = None
+    for x in walk_no_nested(f.node):
+        if isinstance(x, ast.Call) and call_name(x) in ("find", "index", "count") and x.args and \
+                is_term(x.args[0]) or (isinstance(x, ast.Compare) and any(x is c for c in in_tests)):
+            st = None
+            for s_ in walk_no_nested(f.node):
+                if isinstance(s_, ast.stmt) and not isinstance(
+                        s_, (ast.For, ast.While, ast.With, ast.Try, ast.FunctionDef)) and any(
+                            z is x for z in ast.walk(s_ if not isinstance(s_, ast.If)
+                                                     else s_.test)):
+                    st = s_
+            if st is None:
+                continue
+            try:
+                conds = cfg.branch_conditions(cfg.node_of(st))
+            except Exception:  # noqa: BLE001
+                continue
+            for t, _pol in conds:
+                if any(z is x for z in ast.walk(t)):
+                    continue
+                foreign = [y for y in ast.walk(t) if isinstance(y, (ast.Name, ast.Attribute)) and
+                           not is_term(y) and not (isinstance(y, ast.Name) and y.id in (
+                               hit_names | {"len", "self"})) and not (
+                                   isinstance(y, ast.Attribute) and "termination" in y.attr)]
+                foreign = [y for y in foreign if not any(
+                    y is z for c in ast.walk(t) if isinstance(c, ast.Call) and is_term(c)
+                    for z in ast.walk(c))]
+                if foreign and cond_bad is None:
+                    cond_bad = (t, st)
+    if ok and cond_bad is not None:
+        run.violation(R, C, "terminator-search-conditional",
+                      f"the search for the termination sequence inside the value only runs under "
+                      f"`{ast.unparse(cond_bad[0])}`; the decoder searches every value (it "
+                      "cannot know whether a delimiter was appended), so a value that contains "
+                      "the sequence and is emitted without the check decodes truncated",
+                      f"{f.module.rel}:{cond_bad[1].lineno}", stmt_key(cond_bad[1]))
+    elif ok:
         run.ok(R, C, "a value that contains the termination sequence is rejected with "
                "EncodeError", f.loc)
     else:
